@@ -17,7 +17,8 @@ RULE = ("one run (in 'two-groups': two slow groups on one master sharing termina
         "slow SyncGroup started on the simulated bus and run for 6-30 cycles; the terminals "
         "produce input patterns unique to (terminal, offset, cycle); the bus returns, per "
         "datagram and cycle, a correct or wrong working counter (including values that "
-        "differ only above the low byte); jitter; in 'loss' also frame loss (resend path); "
+        "differ only above the low byte); jitter; in 'loss' also frame loss (resend path); in "
+        "35 % of the runs the same groups and devices are started a second time; "
         "oracles per cycle >= 2; distinct = distinct event-log digests; non-trivial = at "
         "least 4 cycles with at least one linked variable")
 COMPONENTS = {
